@@ -4,7 +4,9 @@ from ..common import Check, hx, tags_tok
 from .. import jsongen
 
 THEOREMS = ['parseFilter_total', 'since_until_literal', 'since_until_wide_rejected', 'kind_member_bound',
-            'duplicate_letter_rejected', 'round_trip', 'round_trip_values', 'accepted_is_wellformed']
+            'duplicate_letter_rejected', 'round_trip', 'round_trip_values', 'accepted_is_wellformed',
+            'any_order_any_whitespace_unknown_members', 'accepts_characterised', 'repeated_member_refused',
+            'order_independent', 'acceptance_order_independent']
 
 
 def acc_values(a):
@@ -26,7 +28,7 @@ def acc_values(a):
 def run():
     c = Check('C07', THEOREMS, assumptions=[
         'NIP-01 filters: tag members are single ASCII letters; unknown members of any JSON shape',
-        'well-formedness of the filter a successful parse writes (the analogue of parseEvent_wf) is established by correspondence, not yet by a theorem'])
+        'unknown members: any JSON value nested at most 64 deep (deeper ones are refused by the code)'])
     c.rule = ('filter texts from a value tree: every subset of members, random and (thorough) exhaustive orders, whitespace, escapes in tag '
               'values, unknown members; all 52x52 ordered letter pairs; integer boundaries; each accepted filter serialized with as_json, '
               'checked with Python json and re-parsed. non-trivial = distinct accepted text whose accessors matched the independent parser')
@@ -77,6 +79,13 @@ def run():
         cases.append((('{' + ','.join('"#%s":["%s"]' % (l, l) for l in ls) + '}').encode(), 'accept', {('#' + l): [l] for l in ls}))
         # ... and the same set followed by one letter again: a duplicate, wherever the table of tag members ends
         cases.append((('{' + ','.join('"#%s":["%s"]' % (l, l) for l in ls + [rng.choice(ls)]) + '}').encode(), 'reject', None))
+    # unknown members whose key looks almost like a tag member: '#' + any printable non-letter, '#' alone, '#' + two letters
+    for ch in [chr(b) for b in range(0x20, 0x7f) if not chr(b).isalpha() and chr(b) not in '"\\']:
+        for val in ('["x"]', '7', '{"a":[1]}'):
+            cases.append((('{"kinds":[1],"#%s":%s}' % (ch, val)).encode(), 'accept', {'kinds': [1]}))
+    for key in ('#', '#ee', '#e1', '##', 'e'):
+        for val in ('["x"]', 'null'):
+            cases.append((('{"#e":["v"],"%s":%s,"limit":3}' % (key, val)).encode(), 'accept', {'#e': ['v'], 'limit': 3}))
     # integers
     for name, vals in (('limit', [0, 2 ** 32 - 1, 2 ** 32, 2 ** 32 + 5, 2 ** 64 - 1, 2 ** 64, 10 ** 30]),
                        ('since', [0, 2 ** 64 - 1, 2 ** 64, 2 ** 64 + 7, 10 ** 30]), ('until', [0, 2 ** 64 - 1, 2 ** 64, 10 ** 25])):
